@@ -21,6 +21,7 @@ partial def parseOp : List String → Option Op
   | ["swaprm", i] => some (.swapRm i.toNat!)
   | ["resize", n, x] => some (.resize n.toNat! (parseHex x))
   | ["set", i, x] => some (.set i.toNat! (parseHex x))
+  | ["setfield", v, i, x] => some (.setField v.toNat! i.toNat! (parseHex x))
   | ["pushc", c] => some (.pushBytes (utf8Enc c.toNat!))
   | ["pushstr", x] => some (.pushBytes (parseHex x))
   | "fpush" :: r => match parseInit (tokenize (" ".intercalate r)) with | some (i, []) => some (.fpush i) | _ => none
@@ -44,7 +45,7 @@ def renderVal (et : Option Ty) (bs : Bytes) : String :=
 
 def retStr (et : Option Ty) : OpRet → String
   | .ok => "ok" | .full => "full" | .none => "none" | .some bs => "some:" ++ renderVal et bs | .elem bs => renderVal et bs
-  | .panic => "PANIC" | .err e => s!"err:{errStr e}" | .empty => "empty" | .noitem => "noitem"
+  | .panic => "PANIC" | .err e => s!"err:{errStr e}" | .empty => "empty" | .noitem => "noitem" | .novariant => "novariant"
 
 def runO (t : Ty) (a16 : Nat) (pre : Bytes) (op : Op) : String :=
   let s : Slice := ⟨a16, pre⟩
